@@ -94,6 +94,18 @@ class Front:
         return "loads", eng.loads(text, include_position=p, include_comments=c)
 
 
+class StringFront(Front):
+    """loads / load(StringIO) only: for texts whose strings hold carriage returns (a file read would translate them - C20's listed finding)."""
+
+    def load(self, eng, text, p, c):
+        self.n += 1
+        if self.n % 4 == 0:
+            return "load", self.mf.load(io.StringIO(text, newline=""), include_position=p, include_comments=c)
+        if self.n % 4 == 2:
+            return "loads-public", self.mf.loads(text, include_position=p, include_comments=c)
+        return "loads", eng.loads(text, include_position=p, include_comments=c)
+
+
 class TreeFront:
     """A document spread over INCLUDE files (written below self.dir); open / load / loads with the includes expanded."""
 
@@ -218,6 +230,7 @@ def judge(ctx, eng, front, text, label, ident, tree=None):
 def run(ctx):
     eng = Engine(public_every=80)
     front = Front()
+    sfront = StringFront()
     res = ctx.res
     r = ctx.rng("c13")
     try:
@@ -232,6 +245,13 @@ def run(ctx):
                 gen.place_comments(nodes, r)
             text = render.render(nodes, s, r).text
             judge(ctx, eng, front, text, "gen", h(text))
+            if j % 3 == 0 and "\r" not in text:
+                # the same document as a Windows editor saves it: CRLF everywhere, also inside strings that run over several lines
+                crlf = text.replace("\n", "\r\n")
+                res.count("crlf_documents")
+                if any("\n" in t.text for t in reader.scan(text, keep_comments=False) if t.kind in ("dq", "sq")):
+                    res.count("crlf_documents_with_multi_line_strings")
+                judge(ctx, eng, sfront, crlf, "gen-crlf", h(crlf))
             if len(res.samples) < 2 and 100 < len(text) < 600 and "#" in text:
                 res.sample({"source": text, "printed_with_comments": eng.dumps(eng.loads(text, include_comments=True))})
         # documents spread over INCLUDE files (comments on the INCLUDE lines and inside the included files, multi-line strings)
@@ -280,6 +300,7 @@ def run(ctx):
             finally:
                 tree.close()
     finally:
+        sfront.close()
         front.close()
 
 
@@ -298,6 +319,14 @@ def replay(ctx, v):
                 tree.close()
             return
         text = case.get("text") or open(os.path.join(core.REPO, case["doc"]), encoding="utf-8").read()
+        if "\r" in text:
+            sf = StringFront()
+            try:
+                for _ in range(4):
+                    judge(ctx, eng, sf, text, "replay", case["doc"])
+            finally:
+                sf.close()
+            return
         judge(ctx, eng, front, text, "replay", case["doc"])
     finally:
         front.close()
